@@ -591,11 +591,54 @@ class IdentMonitor(_monitor_base()):
     ae = already_exists_failure(exc)
     if ae:
       ae[1]["actions"] = sorted(set(str(a[0]) for a in bundle))
+      ae[1]["sister_formula_column"] = self._sister_rename(e, bundle, exc)
       out.append(ae)
     out += doc_id_failures(e)
     return out[:1]
 
+  @staticmethod
+  def _sister_rename(e, bundle, exc):
+    """The bundle failed with 'Column X already exists in T' (so the document is back in its
+    pre-bundle state).  True when the bundle renames a formula column `old` of a summary table S,
+    and T is ANOTHER summary table of the same source table that has a same-named formula column
+    `old` (its 'sister', renamed together with it) and already has a column X."""
+    from vlib.rtc import eng
+    m = re.search(r"Column (\S+) already exists in (\S+)", str(exc))
+    if not m:
+      return False
+    X, T = m.group(1), m.group(2)
+    tables = eng.meta_records(e, "_grist_Tables")
+    columns = eng.meta_records(e, "_grist_Tables_column")
+    by_id = {t["tableId"]: t for t in tables}
+    by_ref = {t["id"]: t for t in tables}
+    trec = by_id.get(T)
+    if not trec or not trec.get("summarySourceTable"):
+      return False
+    tcols = {c["colId"]: c for c in columns if c["parentId"] == trec["id"]}
+    if X not in tcols:
+      return False
+    targets = []                               # (table record, old col id) renamed by the bundle
+    for a in bundle:
+      if a[0] == "RenameColumn" and a[1] in by_id:
+        targets.append((by_id[a[1]], a[2]))
+      elif a[0] in ("UpdateRecord", "BulkUpdateRecord") and a[1] == "_grist_Tables_column" and \
+          isinstance(a[3], dict) and ("colId" in a[3] or "label" in a[3]):
+        for ref in (a[2] if isinstance(a[2], (list, tuple)) else [a[2]]):
+          for c in columns:
+            if c["id"] == ref and c["parentId"] in by_ref:
+              targets.append((by_ref[c["parentId"]], c["colId"]))
+    for srec, old in targets:
+      if (srec["id"] != trec["id"] and srec.get("summarySourceTable") and
+          srec["summarySourceTable"] == trec["summarySourceTable"] and
+          old in tcols and tcols[old]["isFormula"] and
+          any(c["parentId"] == srec["id"] and c["colId"] == old and c["isFormula"] for c in columns)):
+        return True
+    return False
+
   def classify(self, clause, detail, bundle, history):
+    if clause == "C21.picked_id_is_unused" and detail.get("what") == "colId" and \
+        detail.get("sister_formula_column"):
+      return "engine:colId:summary-sister-column-renamed-onto-sibling-table-id"
     if detail.get("summary_table") and detail.get("sister_formula_column"):
       return "engine:colId:summary-sister-column-renamed-onto-sibling-table-id"
     if clause == "C21.picked_id_is_unused":
@@ -701,6 +744,9 @@ def main():
                   budget_quick_s=6, budget_thorough_s=300)
   # directed histories (fixed; found by the thorough tier, kept so that every run re-examines them)
   directed = [("summary", [[["RenameColumn", "A_summary", "count", "CAT"]]]),
+              ("summary", [[["RenameColumn", "A_summary", "count", "cat"]]]),
+              ("c21_joined", [[["RenameTable", "Src", "Dst"]], [["RenameTable", "Low", "LOW"]],
+                              [["BulkUpdateRecord", "_grist_Tables", [1, 2], {"tableId": ["Tab", "tab"]}]]]),
               ("summary", [[["RenameColumn", "A", "tags", "New Col"]],
                            [["UpdateRecord", "_grist_Tables_column", 14, {"colId": "new_col"}]]])]
   mon = IdentMonitor()
